@@ -17,7 +17,7 @@ TRUSTED_BASE = [
 ASSUMPTIONS = ['the to_dict stage (parse tree -> dict) and footnote resolution are covered by the stages and the oracle, not by a conservation theorem',
                'a repeated attribute name in one {...} list keeps the later value only (by construction of the attribute dict)']
 
-TOKEN = re.compile(r'(?:w|tok|ש|م|é|\U0001F600z|q)\d+z')
+TOKEN = re.compile(r'(?:w|tok|ש|م|é|\U0001F600z|q|\U00020BB7z|\U000E0101z)\d+z')
 PLACEHOLDER_WORDS = {'(content', 'missing)', 'FOOTNOTE'}
 
 def _oracle(args):
@@ -83,8 +83,8 @@ def _pair_oracle(args):
     if got != exp:
         return ('bad', 'tokens lost %r, duplicated/invented %r' % (list((exp - got).elements())[:3], list((got - exp).elements())[:3]), text)
     extra = [w for w in words if w in ('FOOTNOTE', '(content', 'missing)')]
-    if extra:
-        return ('bad', 'markup words in the body although every footnote block is referenced: %r' % extra[:3], text)
+    if len(extra) != text.count('stray'):          # one FOOTNOTE word per unreferenced block that stays as content
+        return ('bad', 'markup words in the body although every other footnote block is referenced: %r' % extra[:3], text)
     return ('ok', None, text)
 
 def cases(ctx, n):
